@@ -2,6 +2,7 @@
    Record syntax: see impl/t_yl.c *)
 let split c s = String.split_on_char c s
 
+exception Unloadable
 type srec = { extra : bool; hm : hmod; imports : (n list * n list option) list }
 
 let parse_feat s =
@@ -21,9 +22,29 @@ let parse_import s =
 let parse_rec (field : string) : srec =
   let extra = String.length field > 0 && field.[0] = '+' in
   let field = if extra then String.sub field 1 (String.length field - 1) else field in
-  match split ',' field with
+  let parts = split ',' field in
+  let parts, subg = (match parts with [a; b; c; d; e; g] -> ([a; b; c; d; e], Some g) | _ -> (parts, None)) in
+  match parts with
   | [nm; rv; im; gs; is] ->
       let groups = List.map parse_group (split ';' gs) in
+      (* with a submodule graph the feature arrays follow the includes array that the model computes; a graph that
+         the model refuses, or an enabled feature in a submodule that is never loaded, makes the record unloadable *)
+      let groups = (match subg with
+        | None -> groups
+        | Some g ->
+            let w = split ';' g in
+            let v11 = (List.hd w = "1") in
+            let incs = List.map (fun l -> if l = "" then [] else List.map (fun x -> nat_of_int (int_of_string x)) (split '+' l))
+                         (List.tl w) in
+            let rec pad l n = if List.length l >= n then l else pad (l @ [[]]) n in
+            let incs = pad incs (List.length groups) in
+            (match includes_order v11 incs with
+             | Err _ -> raise Unloadable
+             | Ok order ->
+                 let live = List.map int_of_nat order in
+                 List.iteri (fun k grp -> if k > 0 && not (List.mem k live) && List.exists (fun f -> f.f_en) grp
+                                          then raise Unloadable) groups;
+                 List.hd groups :: regroup groups order)) in
       let fs, subs = (match groups with [] -> ([], []) | g :: r -> (g, r)) in
       { extra;
         hm = { h_name = unhex nm; h_rev = (if rv = "-" then None else Some (unhex rv)); h_impl = (im = "1");
@@ -96,6 +117,6 @@ let run (f : string list) : string =
     | "ccwrap" :: start :: ns ->
         String.concat "," (List.map dec_of_n (cc_run (n_of_dec start) (List.map n_of_dec ns)))
     | _ -> "?"
-  with Failure _ -> "?rec"
+  with Failure _ -> "?rec" | Unloadable -> "E"
 
 let () = main_loop run
